@@ -431,9 +431,31 @@ Definition refs_exist (w : wf) : bool :=
 Definition graph_of (w : wf) : list (cid * list cid) :=
   map (fun c => (c_id c, filter (fun r => kmem cid_eqb r (ids w)) (c_refs c))) (w_comps w).
 
+(* FlowIRConcrete.instance resolves the global variables among themselves first and stores the result in place: a
+   global all of whose (transitive) mentions are global variables is a CONSTANT by the time a component is resolved
+   (its mentions were bound to the global values, whatever the component shadows); a global that cannot be resolved
+   there (FlowIRVariableUnknown is only logged) keeps its text and is resolved with the variables of the component *)
+Fixpoint vlookup (n : string) (vs : list (string * list string)) : option (list string) :=
+  match vs with
+  | [] => None
+  | (k, rs) :: r => if String.eqb n k then Some rs else vlookup n r
+  end.
+
+Fixpoint gres (vs : list (string * list string)) (fuel : nat) (n : string) : bool :=
+  match fuel with
+  | O => false
+  | S f => match vlookup n vs with
+           | None => false
+           | Some rs => forallb (gres vs f) rs
+           end
+  end.
+
+Definition gresolved (w : wf) (n : string) : bool := gres (w_gvars w) (length (w_gvars w)) n.
+
 (* variables visible to a component: its own, then the global ones it does not shadow *)
 Definition env_of (w : wf) (c : comp) : list (string * list string) :=
-  c_vars c ++ filter (fun gv => negb (kmem String.eqb (fst gv) (map fst (c_vars c)))) (w_gvars w).
+  c_vars c ++ map (fun gv => (fst gv, if gresolved w (fst gv) then [] else snd gv))
+                  (filter (fun gv => negb (kmem String.eqb (fst gv) (map fst (c_vars c)))) (w_gvars w)).
 
 Definition vars_defined (w : wf) (c : comp) : bool :=
   let env := env_of w c in
@@ -454,9 +476,10 @@ Definition stages_ok (w : wf) : bool :=
 
 (* the global variables are also resolved on their own when the configuration is initialised: a cycle among them
    is fatal even when every component shadows them (an undefined name there is not) *)
-Definition gvars_acyclic (w : wf) : bool :=
-  acyclic_b String.eqb
-    (map (fun e => (fst e, filter (fun u => kmem String.eqb u (map fst (w_gvars w))) (snd e))) (w_gvars w)).
+Definition gvar_graph (w : wf) : list (string * list string) :=
+  map (fun e => (fst e, filter (fun u => kmem String.eqb u (map fst (w_gvars w))) (snd e))) (w_gvars w).
+
+Definition gvars_acyclic (w : wf) : bool := acyclic_b String.eqb (gvar_graph w).
 
 Section Accept.
   Variable cs : schema.      (* the regenerated type_flowir_component('full') *)
@@ -502,7 +525,10 @@ Section Accept.
     | DupName (i j : nat)                        (* component i takes the identifier of component j *)
     | UnknownKey (i : nat) (p : list pk) (k : pk) (x : pv)
     | WrongType (i : nat) (p : list pk) (k : pk) (x : pv)
-    | RemoveVar (n : string).                    (* the global variable n is no longer defined *)
+    | RemoveVar (n : string)                     (* the global variable n is no longer defined *)
+    | CyclicVars (scope : option nat) (a b : string).
+        (* the value of variable a additionally mentions variable b: a is a global variable (scope None) or a
+           variable of component i (scope Some i) *)
 
   Definition set_refs (f : list cid -> list cid) (c : comp) : comp :=
     mkComp (c_stage c) (c_name c) (f (c_refs c)) (c_uses c) (c_vars c) (c_doc c).
@@ -510,6 +536,12 @@ Section Accept.
     mkComp (fst i) (snd i) (c_refs c) (c_uses c) (c_vars c) (c_doc c).
   Definition set_doc (f : pv -> pv) (c : comp) : comp :=
     mkComp (c_stage c) (c_name c) (c_refs c) (c_uses c) (c_vars c) (f (c_doc c)).
+
+  Definition set_vars (f : list (string * list string) -> list (string * list string)) (c : comp) : comp :=
+    mkComp (c_stage c) (c_name c) (c_refs c) (c_uses c) (f (c_vars c)) (c_doc c).
+
+  Definition add_mention (a b : string) (vs : list (string * list string)) : list (string * list string) :=
+    map (fun e => if String.eqb (fst e) a then (fst e, snd e ++ [b]) else e) vs.
 
   Definition mutate (m : fault) (w : wf) : wf :=
     match m with
@@ -522,6 +554,8 @@ Section Accept.
                      end
     | UnknownKey i p k x | WrongType i p k x => mkWf (w_gvars w) (upd_nth i (set_doc (pput p k x)) (w_comps w))
     | RemoveVar n => mkWf (filter (fun gv => negb (String.eqb n (fst gv))) (w_gvars w)) (w_comps w)
+    | CyclicVars None a b => mkWf (add_mention a b (w_gvars w)) (w_comps w)
+    | CyclicVars (Some i) a b => mkWf (w_gvars w) (upd_nth i (set_vars (add_mention a b)) (w_comps w))
     end.
 End Accept.
 
@@ -558,3 +592,7 @@ Definition check_load_case (cs : schema) (c : wf * bool * list nat) : bool :=
   let '(w, acc, rs) := c in
   Bool.eqb (accept cs w) acc &&
   forallb (fun r => if Nat.eqb r 0 then negb (accept cs w) else existsb (Nat.eqb r) (reasons cs w)) rs.
+
+(* (well-formed workflow, fault, the mutant is accepted by the real loader): the model's own [mutate] *)
+Definition check_mutant_case (cs : schema) (c : wf * fault * bool) : bool :=
+  let '(w, m, acc) := c in Bool.eqb (accept cs (mutate m w)) acc.
